@@ -249,7 +249,9 @@ def relocate_methods(trees: Dict[str, ast.Module]) -> Dict[str, str]:
         for v in tree.body:
             if not isinstance(v, ast.ClassDef) or f"{modname}.{v.name}" in inv.get("fields", {}) or v is cnode:
                 continue
-            if not any((isinstance(b, ast.Name) and b.id == "NamedTuple") or (isinstance(b, ast.Attribute) and b.attr == "NamedTuple") for b in v.bases):
+            is_nt = any((isinstance(b, ast.Name) and b.id == "NamedTuple") or (isinstance(b, ast.Attribute) and b.attr == "NamedTuple") for b in v.bases)
+            is_dc = any((ast.unparse(d.func if isinstance(d, ast.Call) else d)).rsplit(".", 1)[-1] == "dataclass" for d in v.decorator_list)
+            if not (is_nt or is_dc):
                 continue
             for g in v.body:
                 if isinstance(g, ast.FunctionDef) and len(g.args.args) == 2 and not g.decorator_list and f"{modname}.{v.name}.{g.name}" not in inv["functions"]:
@@ -296,6 +298,17 @@ def relocate_methods(trees: Dict[str, ast.Module]) -> Dict[str, str]:
                 n.col_offset = 0
                 n.end_col_offset = 0
         cnode.body.append(new_m)
+        # a frozen dataclass of plain fields that received the method is read like the NamedTuple it replaces (an immutable record:
+        # the rules read its fields by position, as they read the tuple of the pinned tree)
+        frozen = any(isinstance(d, ast.Call) and ast.unparse(d.func).rsplit(".", 1)[-1] == "dataclass"
+                     and any(k.arg == "frozen" and isinstance(k.value, ast.Constant) and k.value.value is True for k in d.keywords) for d in v.decorator_list)
+        plain = all(isinstance(st, (ast.FunctionDef, ast.Expr, ast.Pass)) or (isinstance(st, ast.AnnAssign) and st.value is None) for st in v.body) \
+            and not any(isinstance(st, ast.FunctionDef) and st.name.startswith("__") for st in v.body)
+        if frozen and plain and not v.bases:
+            v.decorator_list = [d for d in v.decorator_list if not (ast.unparse(d.func if isinstance(d, ast.Call) else d).rsplit(".", 1)[-1] == "dataclass")]
+            nt = ast.Name(id="NamedTuple", ctx=ast.Load())
+            ast.copy_location(nt, v)
+            v.bases = [nt]
         for n, me, _f in sites:
             recv = n.func.value
             n.func = ast.copy_location(ast.Attribute(value=ast.copy_location(ast.Name(id=me, ctx=ast.Load()), n), attr=old, ctx=ast.Load()), n)
